@@ -15,10 +15,19 @@ func runC03(g Glue, j *Job, res *JobResult) {
 	sess := &act.Session{}
 	gsim.SetMain(sess, j.Budget)
 	ctx := ctxOf(3)
+	var shared Parser
 	fresh := func() (Parser, Lexer) {
+		// Reuse: one parser object serves the baseline, every faulted parse and the
+		// final fault-free parse (Parse must not depend on what came before).
+		if j.Reuse && shared != nil {
+			return shared, e.newLexFor(j.In, nil)
+		}
 		p := g.NewParser()
 		p.SetContext(ctx)
 		sess.Ctx = ctx
+		if j.Reuse {
+			shared = p
+		}
 		return p, e.newLexFor(j.In, nil)
 	}
 	viol := func(class string, at int, format string, args ...interface{}) {
@@ -28,7 +37,7 @@ func runC03(g Glue, j *Job, res *JobResult) {
 
 	// --- fault-free configuration ---
 	p, l := fresh()
-	base := e.runParse(p, l, j.In, nil, sess)
+	base := e.runParse(p, l, j.In, nil, sess, nil)
 	res.Evals++
 	dg = digestAdd(dg, base.String())
 	switch {
@@ -67,7 +76,7 @@ func runC03(g Glue, j *Job, res *JobResult) {
 		}
 		for _, kind := range kinds {
 			p, l := fresh()
-			o := e.runParse(p, l, j.In, &Fault{ActionCall: k, Kind: kind}, sess)
+			o := e.runParse(p, l, j.In, &Fault{ActionCall: k, Kind: kind}, sess, nil)
 			res.Evals++
 			res.Stats["fault-"+kind+"-fired"]++
 			dg = digestAdd(dg, o.String())
@@ -96,6 +105,23 @@ func runC03(g Glue, j *Job, res *JobResult) {
 			}
 			if d := diffLogs(base.Log[:min(k, len(base.Log))], o.Log[:min(k, len(o.Log))]); d != "" {
 				viol("action-sequence", k, "calls before the failing one differ from the fault-free run: %s", d)
+			}
+		}
+	}
+	if j.Reuse {
+		// after all the aborted parses the same object must still evaluate the sentence correctly
+		p, l := fresh()
+		o := e.runParse(p, l, j.In, nil, sess, nil)
+		res.Evals++
+		res.Stats["reused-parser-final-parse"]++
+		switch {
+		case o.Panic != "" || !o.ErrNil:
+			viol("valid-sentence-rejected", 0, "a parser reused after %d aborted parses rejects the sentence: %s%s", len(j.FaultCalls), o.Panic, o.ErrText)
+		case o.Result != j.ExpectResult:
+			viol("result-value", 0, "a parser reused after %d aborted parses returned %s, post-order evaluation gives %s", len(j.FaultCalls), clip(o.Result), clip(j.ExpectResult))
+		default:
+			if d := diffLogs(j.ExpectLog, o.Log); d != "" {
+				viol("action-sequence", 0, "on a parser reused after %d aborted parses: %s", len(j.FaultCalls), d)
 			}
 		}
 	}
